@@ -60,6 +60,48 @@ CHECKS = {
   design_ref="DESIGN.md §4 C17",
   note="Trusted: Lean kernel + standard axioms; py2lean table/predicate extraction (self-checked against live module objects); hand model of providers tied by exhaustive correspondence; part contributions of spell traces/bonus are inputs of the blueprint model.",
   technique="Lean 4 proof over generated tables (decide +kernel lifted) + exhaustive differential correspondence"),
+ "C07": dict(
+  category="proof",
+  text="Lean 4 theorems for the dispatcher of component/base.py with an ARBITRARY reducer (tagging never creates or hides a rejection; nothing is appended to an answer containing a rejection; a reducer that rejects alone and returns its input state makes the dispatcher report that rejection alone and leave every store lookup unchanged) and, per modelled component class, that its reducers reject alone with the state unchanged. Every dispatcher of every job is additionally observed through a proxy (whole-store snapshot before/after, returned events) on rejection-biased plans, on a fork sweep dispatching every mapped reducer (player and listened) on restored checkpoints, and on synthetic positive cooldowns; unmodelled classes are covered by this exploration only.",
+  design_ref="DESIGN.md §4 C07",
+  note="Trusted: Lean kernel + standard axioms; hand models of the dispatcher and of the component classes tied by differential correspondence; known finding F8d (StackableBuffSkillComponent, latent: shipped cooldown 0).",
+  technique="Lean 4 proof (dispatcher for arbitrary reducers + per-class reducer lemmas) + dispatcher-proxy exploration"),
+ "C08": dict(
+  category="other",
+  text="Partial by nature: a functional model cannot exhibit object mutation. PROVED in Lean for the dispatcher with an arbitrary reducer and arbitrary entities: it writes no address outside the component's bound addresses (frame) and its events and written values are a function of the bound entities; views are functions of the bound entities. DECIDED by observation: every reducer and view call harvested from real runs of all jobs is replayed as a direct call twice on the same argument objects and once on deep copies; argument dumps must not change and results must be equal.",
+  design_ref="DESIGN.md §4 C08",
+  note="Frame theorems trusted as usual; object mutation and repeatability are observed on harvested calls, not proved.",
+  technique="Lean 4 frame theorems + harvested-call replay (observation)"),
+ "C14": dict(
+  category="proof",
+  text="Lean 4 theorems at character level over a hand-written lexer/parser for the plan DSL (following the Lark grammar incl. its Earley/dynamic-lexer behaviour): parse_render (every operation re-parses from its expr to itself), produced_in_range/reparse_of_parsed (every operation the parser returns re-parses), multiplier semantics, layout_irrelevant_partial for the explicit good-layout class + layout_rejected/never_changes_commands for everything else, body/plan round trip. Number printing and YAML are hypotheses sampled per run. The model is compared with the real Lark parser on tens of thousands of generated texts; re-parsed plans are executed on the real engine.",
+  design_ref="DESIGN.md §4 C14",
+  note="Trusted: Lean kernel + standard axioms; Lark's parsing algorithm and CPython float repr validated, not proved; known findings F13 (layout classes the grammar rejects) and F16 (non-finite time).",
+  technique="Lean 4 proof on a re-implementation of the grammar + differential correspondence with Lark"),
+ "C15": dict(
+  category="proof",
+  text="Lean 4 theorems over a model of the spec expression grammar/evaluator and of DFSTraversePatch/ArithmeticPatch/Spec.interpret: parse_pretty at character level (usual precedence, left associativity), evaluate_pretty, every_template_replaced_partial (apply = an independent recursive specification, including templates evaluating to 0, for documents without template keys in front of containers) with the negation witness for that excluded class, interpret theorems. Compared with the real Lark evaluator and patches on generated expressions/documents and against an independent ast-based reference; all shipped specs under the real patch chains; deep snapshots of the repository before/after interpretation and after mutating results.",
+  design_ref="DESIGN.md §4 C15",
+  note="Trusted: Lean kernel + standard axioms; Lark Earley validated not modelled; floats as exact rationals (float-rounding divergences counted); known finding F18 (template key of a container value).",
+  technique="Lean 4 proof (parser round trip, traversal = specification) + differential correspondence"),
+ "C18": dict(
+  category="proof",
+  text="Lean 4 theorems infer_sound and infer_complete at full strength over an Int model of improvements/bonus.py, bonus_factory.py and compute/bonus.py that follows the search statement by statement (greedy stage, accumulating remainder, recursive search, candidate table): whatever compute returns has <= 4 distinct-kind options with valid grades summing exactly to the observed stat, and every sum of <= 4 valid distinct-kind options is accepted. The model returns the same decomposition as the real code on all compared inputs; soundness/completeness are also checked directly on real gears (1-2 kinds exhaustively, 3-4 sampled).",
+  design_ref="DESIGN.md §4 C18",
+  note="Trusted: Lean kernel + standard axioms; hand model tied by exact-answer correspondence; req_level >= 0, integral base attacks, well-formed observed stat (compute does not validate its input).",
+  technique="Lean 4 proof (search invariant + completeness of the recursive search) + differential correspondence"),
+ "C19": dict(
+  category="proof",
+  text="Lean 4 theorems over a model of StepwizeOptimizer (all step iterators, reward, first strict maximum above -1, iteration guard) for ARBITRARY cost/value functions: within_budget, within_limits, keeps_presets, never_worse (under value monotonicity along tried steps, shown necessary by a counterexample), no_single_step_improves at normal termination, determinism, guard_not_hit, clone_preserves_objective/keeps_armor, and for the weapon-potential brute force weapon_best_partial (maximal among legal combinations of the pruned lists) and weapon_best_of_dominated. Tied to the code by replaying recorded cost/value oracles of real optimizer runs; budgets, limits, presets, armour, single-step optimality and an independent brute force are checked on the real optimizers.",
+  design_ref="DESIGN.md §4 C19",
+  note="Trusted: Lean kernel + standard axioms; recorded-oracle correspondence; unpruned weapon_best rests on the Dominated hypothesis (checked per run by brute force); float near-ties verified separately.",
+  technique="Lean 4 proof (greedy invariants over abstract targets) + recorded-oracle replay"),
+ "C20": dict(
+  category="proof",
+  text="Lean 4 theorem memo_eq_direct: from the empty world, after any history of requests/export/import/save/load/restart, a request through any live memoizer (in-memory or file-backed) has the outcome of the direct computation, given that equal keys imply equal memoizable parts and the serialization round trip (up to validation); no_sharing; independent_from_request. The key hypothesis is discharged for both provider classes from facts REGENERATED from the source on every run (fields read by the memoizable part, exclude/include sets, produced keys, statement shape of both memoize methods) by decide. Same histories run through the model and the real memoizers; one-field-difference request sequences across export/import and fresh processes compare memoized and direct environments.",
+  design_ref="DESIGN.md §4 C20",
+  note="Trusted: Lean kernel + standard axioms; py2lean read-set extraction (cross-checked by recorded attribute reads); injective canonical JSON + sha256; json round trip of dict[str,str].",
+  technique="Lean 4 proof (state-machine invariant) over facts regenerated from source + differential correspondence"),
 }
 
 NOT_YET = "check not built yet in this round (work in progress; see DESIGN.md §6 build order)"
